@@ -2332,20 +2332,28 @@ package otto
 //@   stable call.ArgumentList
 //@   abstract_callee execRegExp, (*object).call
 //@   calls checkObjectCoercible(call.runtime, call.This)
+// 15.5.4.10 match: a failed search yields null (never undefined), a successful one an
+// array; 15.5.4.11 replace with a global RegExp ends with lastIndex reset to 0 (the search
+// stops at the exec that fails, 15.10.6.2 step 9.a).
 //@ func builtinStringMatch
-//@   props C09
+//@   props C09 C10
 //@   nosafety
 //@   requires wfCall(call) && argsOK(call.ArgumentList) && call.runtime != nil
 //@   stable call.ArgumentList
 //@   abstract_callee execRegExp, (*object).call
 //@   calls checkObjectCoercible(call.runtime, call.This)
+//@   at_call (*object).put : arg0 == matcher && arg1 == "lastIndex" && arg3
+//@   at_call (*object).put : arg2.kind == valueNumber && is(arg2.value, int) && arg2.value.(int) == 0
+//@   ensures result.kind == valueNull || result.kind == valueObject
 //@ func builtinStringReplace
-//@   props C09
+//@   props C09 C10
 //@   nosafety
 //@   requires wfCall(call) && argsOK(call.ArgumentList) && call.runtime != nil
 //@   stable call.ArgumentList
 //@   abstract_callee execRegExp, (*object).call
 //@   calls checkObjectCoercible(call.runtime, call.This)
+//@   at_call (*object).put : arg0 == searchObject && global && arg1 == "lastIndex" && arg3 && arg2.kind == valueNumber && is(arg2.value, int) && arg2.value.(int) == 0
+//@   at_call (*object).call : arg0 == replace && arg1 == Value{} && len(arg2) == len(match) / 2 + 2
 //@ func builtinStringStartsWith
 //@   props C09
 //@   nosafety
@@ -3591,13 +3599,14 @@ package otto
 //@   calls (*object).defineProperty(_, "global", _, _, _)
 //@   calls (*object).defineProperty(_, "ignoreCase", _, _, _)
 //@   calls (*object).defineProperty(_, "multiline", _, _, _)
+//@   ensures result != nil
 //@ func (*runtime).newRegExpDirect
 //@   props C10 C14
 //@   nosafety
 //@   requires rt != nil
 //@   calls (*runtime).newRegExpObject(_, _, _) as o
 //@   at_call (*runtime).newRegExpObject : arg0 == rt && arg1 == pattern && arg2 == flags
-//@   ensures called(o) && result == o && result.prototype == rt.global.RegExpPrototype
+//@   ensures called(o) && result == o && result != nil && result.prototype == rt.global.RegExpPrototype
 
 // 15.10.3.1 RegExp(pattern, flags) called as a function returns pattern itself when it is a
 // RegExp object and flags is undefined; 15.10.4.1: constructing from a RegExp object with
@@ -3616,7 +3625,7 @@ package otto
 //@   at_call (*runtime).panicTypeError : patternValue.kind == valueObject && flagsValue.kind != valueUndefined
 //@   at_call (*runtime).newRegExpDirect : arg0 == rt && (patternValue.kind == valueUndefined ==> arg1 == "") && (flagsValue.kind == valueUndefined && patternValue.kind != valueObject ==> arg2 == "") && (patternValue.kind == valueString && is(patternValue.value, string) ==> arg1 == patternValue.value.(string)) && (flagsValue.kind == valueString && is(flagsValue.value, string) && patternValue.kind != valueObject ==> arg2 == flagsValue.value.(string))
 //@   calls (*runtime).newRegExpDirect(_, _, _) as o
-//@   ensures called(o) && result == o
+//@   ensures called(o) && result == o && result != nil
 
 // 15.10.6.2 steps 14-21: the result array of a match holds the whole match and one slot per
 // capture (undefined for a group that did not participate), and carries index (in UTF-16
